@@ -1,5 +1,6 @@
 import WfProofs.EngineReduce
 import WfProofs.RunnerWorkers
+import WfProofs.EngineUnrepaired
 /-!
 # C01 — a step never runs more invocations at once than its worker limit
 
@@ -91,17 +92,16 @@ pulls, timers, time, external ticks, stream writes), every policy, every (possib
 initial state.  It is an inclusion, not an equality: between a `workerDone` and the `drain`
 of its `stepResult` tick the task is gone while its in-progress row still exists.
 
-**Finding.**  Stated without a guard, this is FALSE of the reducer as it is: a collect
+**Repaired finding.**  These theorems were false of the reducer before the repair
+"a step result schedules at most one collect_events re-run of its invocation": a collect
 re-run re-issues `CommandRunWorker` for the finishing worker's own slot, and one
-`stepResult` tick can take the re-run branch *twice* when the results name the same
-collect buffer three times (`ctx.collect_events(ev, …, buffer_id=b)` called three times in
-one invocation of a multi-worker step: re-run, append, re-run again against the refreshed
-snapshot).  Two tasks then run on one slot, a 2-worker step has 3 live tasks, and the
-second task's result finds no in-progress row (the real engine raises
-`ValueError: Worker 1 not found in in_progress`; reproduced on the real code by
-`harness/corpus/c01_double_collect_rerun_witness.py`).  `C01_refuted_*` are the concrete
-witnesses; the `…_partial` theorems hold for every schedule in which no invocation names
-a collect buffer twice (`Act.CollectOnce`, a decidable property of the action list alone).
+`stepResult` tick could take the re-run branch *twice* when its results named the same
+collect buffer three times (re-run, append, re-run again against the refreshed snapshot).
+Two tasks then ran on one slot, a 2-worker step had 3 live tasks, and the second task's
+result found no in-progress row (`ValueError: Worker 1 not found in in_progress`).  The
+repaired reducer skips the remaining `AddCollectedEvent` results of a tick once the
+re-run is scheduled; `WfProofs/EngineUnrepaired.lean` keeps the old `applyRes` as a variant
+and `C01_refuted_*_unrepaired` are the concrete witnesses against it.
 -/
 
 /-- start of a run, then an arbitrary schedule -/
@@ -109,27 +109,92 @@ abbrev C01.runFrom (cfg : Cfg) (pol : Policy) (st0 : State) (now : Int) (start :
     (timeout : Option Nat) (acts : List Act) : Runner :=
   Runner.run cfg pol (Runner.init cfg st0 now start timeout) acts
 
-/-- full-strength clause 1 (as asked): every live task is backed by an in-progress row of its
-step with its worker id and event, and no two live tasks share a `(step, worker id)` slot -/
-def C01_statement_running_subset_in_progress : Prop :=
-  ∀ (cfg : Cfg), cfg.WF → ∀ (pol : Policy) (st0 : State), IdsInv cfg st0 →
-    ∀ (now : Int) (start : Option Ev) (timeout : Option Nat) (acts : List Act),
-      (∀ w ∈ (C01.runFrom cfg pol st0 now start timeout acts).running,
-        ∃ ip ∈ ((C01.runFrom cfg pol st0 now start timeout acts).st.workers w.step).inProg,
-          ip.wid = w.wid ∧ ip.ev = w.ev) ∧
-      ((C01.runFrom cfg pol st0 now start timeout acts).running.map Worker.slot).Nodup
+/-- **Clause 1** (invariant of the runner LTS): in every reachable runner state every live
+worker task is backed by an in-progress row of its (configured) step with its worker id, and
+the `(step, worker id)` slots of the live tasks are pairwise distinct. -/
+theorem C01_running_subset_in_progress (cfg : Cfg) (hwf : cfg.WF) (pol : Policy) (st0 : State)
+    (h0 : IdsInv cfg st0) (now : Int) (start : Option Ev) (timeout : Option Nat) (acts : List Act) :
+    (∀ w ∈ (C01.runFrom cfg pol st0 now start timeout acts).running,
+      w.step ∈ cfg.names ∧
+      ∃ ip ∈ ((C01.runFrom cfg pol st0 now start timeout acts).st.workers w.step).inProg,
+        ip.wid = w.wid) ∧
+    ((C01.runFrom cfg pol st0 now start timeout acts).running.map Worker.slot).Nodup := by
+  have h := run_runInv cfg hwf pol False acts _ (guarded_false cfg pol acts _)
+    (init_runInv cfg hwf False st0 h0 now start timeout)
+  refine ⟨fun w hw => ?_, h.nodup⟩
+  obtain ⟨h1, ip, hip, hwid, _⟩ := h.sub w hw
+  exact ⟨h1, ip, hip, hwid⟩
 
-/-- full-strength clause 2: at most `num_workers` live tasks per step -/
-def C01_statement_running_bounded : Prop :=
-  ∀ (cfg : Cfg), cfg.WF → ∀ (pol : Policy) (st0 : State), IdsInv cfg st0 →
-    ∀ (now : Int) (start : Option Ev) (timeout : Option Nat) (acts : List Act),
-      ∀ c ∈ cfg.steps,
-        ((C01.runFrom cfg pol st0 now start timeout acts).running.filter
-          (fun w => w.step == c.name)).length ≤ c.numWorkers
+/-- **Clause 2**: a step never has more live worker tasks than `num_workers`, and every live
+task runs on a slot in `[0, num_workers)` — for retries, collect re-runs, waiter replays and
+resumed runs alike, for every schedule. -/
+theorem C01_running_bounded (cfg : Cfg) (hwf : cfg.WF) (pol : Policy) (st0 : State)
+    (h0 : IdsInv cfg st0) (now : Int) (start : Option Ev) (timeout : Option Nat) (acts : List Act) :
+    (∀ c ∈ cfg.steps,
+      ((C01.runFrom cfg pol st0 now start timeout acts).running.filter
+        (fun w => w.step == c.name)).length ≤ c.numWorkers) ∧
+    ∀ w ∈ (C01.runFrom cfg pol st0 now start timeout acts).running, w.wid < cfg.nw w.step :=
+  (run_runInv cfg hwf pol False acts _ (guarded_false cfg pol acts _)
+    (init_runInv cfg hwf False st0 h0 now start timeout)).bounded hwf
+
+/-- **Clause 1, event part** (true only with a guard): if every collect re-run carries the
+finishing worker's own event (`Runner.sameEvent`, checked along the run), the backing row has
+the task's event.  Without the guard it fails — see the example below: a re-run runs with the
+event named by the `AddCollectedEvent` result, which is whatever the step passed to
+`collect_events`. -/
+theorem C01_running_same_event_partial (cfg : Cfg) (hwf : cfg.WF) (pol : Policy) (st0 : State)
+    (h0 : IdsInv cfg st0) (now : Int) (start : Option Ev) (timeout : Option Nat) (acts : List Act)
+    (he : Runner.sameEvent cfg pol (Runner.init cfg st0 now start timeout) acts = true) :
+    ∀ w ∈ (C01.runFrom cfg pol st0 now start timeout acts).running,
+      ∃ ip ∈ ((C01.runFrom cfg pol st0 now start timeout acts).st.workers w.step).inProg,
+        ip.wid = w.wid ∧ ip.ev = w.ev := by
+  have h := run_runInv cfg hwf pol True acts _ (guarded_of_sameEvent cfg pol acts _ he)
+    (init_runInv cfg hwf True st0 h0 now start timeout)
+  intro w hw
+  obtain ⟨_, ip, hip, hwid, hev⟩ := h.sub w hw
+  exact ⟨ip, hip, hwid, hev trivial⟩
 
 /-- deliver event `u` to the run: external `send_event`, mailbox pull, process the tick -/
 def C01.feed (u : Nat) : List Act :=
   [.external (.addEvent { ev := C01.exEv u } none), .pull, .drain]
+
+def C01.exPol : Policy := fun _ _ _ _ => .stop
+
+/-- the event clause needs its guard: the re-run task carries uid 9, its row uid 2 -/
+example :
+    let r := C01.runFrom C01.exCfg C01.exPol initState 0 none none
+      (C01.feed 1 ++ C01.feed 2 ++
+        [.workerDone 1 0 [.addCollected 7 (C01.exEv 1), .result none], .drain,
+         .workerDone 1 1 [.addCollected 7 (C01.exEv 9)], .drain])
+    (r.running.map (fun w => (w.step, w.wid, w.ev.uid)),
+      (r.st.workers 1).inProg.map (fun ip => (ip.wid, ip.ev.uid))) = ([(1, 1, 9)], [(1, 2)]) := by
+  decide
+
+/-! ### what the repair prevents -/
+
+/-- the two clauses as predicates of the run function, to state them of both reducers -/
+def C01.RunningSubset (run : Cfg → Policy → Runner → List Act → Runner) : Prop :=
+  ∀ (cfg : Cfg), cfg.WF → ∀ (pol : Policy) (st0 : State), IdsInv cfg st0 →
+    ∀ (now : Int) (start : Option Ev) (timeout : Option Nat) (acts : List Act),
+      (∀ w ∈ (run cfg pol (Runner.init cfg st0 now start timeout) acts).running,
+        ∃ ip ∈ ((run cfg pol (Runner.init cfg st0 now start timeout) acts).st.workers w.step).inProg,
+          ip.wid = w.wid) ∧
+      ((run cfg pol (Runner.init cfg st0 now start timeout) acts).running.map Worker.slot).Nodup
+
+def C01.RunningBounded (run : Cfg → Policy → Runner → List Act → Runner) : Prop :=
+  ∀ (cfg : Cfg), cfg.WF → ∀ (pol : Policy) (st0 : State), IdsInv cfg st0 →
+    ∀ (now : Int) (start : Option Ev) (timeout : Option Nat) (acts : List Act),
+      ∀ c ∈ cfg.steps,
+        ((run cfg pol (Runner.init cfg st0 now start timeout) acts).running.filter
+          (fun w => w.step == c.name)).length ≤ c.numWorkers
+
+/-- of the model (the repaired reducer) both hold … -/
+example : C01.RunningSubset Runner.run ∧ C01.RunningBounded Runner.run :=
+  ⟨fun cfg hwf pol st0 h0 now start timeout acts =>
+      ⟨fun w hw => ((C01_running_subset_in_progress cfg hwf pol st0 h0 now start timeout acts).1 w hw).2,
+        (C01_running_subset_in_progress cfg hwf pol st0 h0 now start timeout acts).2⟩,
+    fun cfg hwf pol st0 h0 now start timeout acts =>
+      (C01_running_bounded cfg hwf pol st0 h0 now start timeout acts).1⟩
 
 /-- the witness schedule on the 2-worker step of `C01.exCfg`: events 1 and 2 run on slots 0
 and 1; the first finishes adding its event to collect buffer 7; event 3 takes slot 0; the
@@ -141,15 +206,24 @@ def C01.doubleRerun : List Act :=
   [.workerDone 1 1 [.addCollected 7 (C01.exEv 2), .addCollected 7 (C01.exEv 2),
       .addCollected 7 (C01.exEv 2)], .drain]
 
-def C01.exPol : Policy := fun _ _ _ _ => .stop
-
-/-- the witness: three live tasks on the 2-worker step, two of them on slot 1, nothing crashed -/
+/-- before the repair: three live tasks on the 2-worker step, two of them on slot 1, nothing
+crashed yet -/
 example :
-    let r := C01.runFrom C01.exCfg C01.exPol initState 0 none none C01.doubleRerun
+    let r := Runner.runUnrepaired C01.exCfg C01.exPol (Runner.init C01.exCfg initState 0 none none)
+      C01.doubleRerun
     (r.running.map Worker.slot, r.outcome, (r.st.workers 1).inProg.map (·.wid))
       = ([(1, 0), (1, 1), (1, 1)], none, [1, 0]) := by decide
 
-theorem C01_refuted_running_bounded : ¬ C01_statement_running_bounded := by
+/-- after the repair, same schedule: one re-run, two live tasks, the buffer untouched by the
+skipped results -/
+example :
+    let r := C01.runFrom C01.exCfg C01.exPol initState 0 none none C01.doubleRerun
+    (r.running.map Worker.slot, r.outcome, (r.st.workers 1).inProg.map (·.wid),
+      ((r.st.workers 1).collected.get 7).map (·.uid))
+      = ([(1, 0), (1, 1)], none, [1, 0], [1]) := by decide
+
+/-- … of the reducer before the repair the worker limit fails … -/
+theorem C01_refuted_running_bounded_unrepaired : ¬ C01.RunningBounded Runner.runUnrepaired := by
   intro h
   have := h C01.exCfg (by simp [Cfg.WF, Cfg.names, C01.exCfg]) C01.exPol initState (idsInv_init _)
     0 none none C01.doubleRerun { name := 1, accepted := [5], numWorkers := 2, hasRetry := false }
@@ -157,100 +231,43 @@ theorem C01_refuted_running_bounded : ¬ C01_statement_running_bounded := by
   revert this
   decide
 
-theorem C01_refuted_running_subset_in_progress : ¬ C01_statement_running_subset_in_progress := by
+/-- … and so does slot distinctness … -/
+theorem C01_refuted_running_subset_in_progress_unrepaired : ¬ C01.RunningSubset Runner.runUnrepaired := by
   intro h
   have := (h C01.exCfg (by simp [Cfg.WF, Cfg.names, C01.exCfg]) C01.exPol initState (idsInv_init _)
     0 none none C01.doubleRerun).2
   revert this
   decide
 
-/-- …and the inclusion itself breaks one step later: the first of the two slot-1 tasks
-completes, its row is removed, the second is still live with no row behind it -/
+/-- … and, one step later, the inclusion itself: the first of the two slot-1 tasks completes,
+its row is removed, the second is still live with no row behind it -/
 example :
-    let r := C01.runFrom C01.exCfg C01.exPol initState 0 none none
+    let r := Runner.runUnrepaired C01.exCfg C01.exPol (Runner.init C01.exCfg initState 0 none none)
       (C01.doubleRerun ++ [.workerDone 1 1 [.result none], .drain])
     (r.running.map Worker.slot, (r.st.workers 1).inProg.map (·.wid)) = ([(1, 0), (1, 1)], [0]) := by
   decide
 
-/-- the event clause fails on its own too: a collect re-run runs with the event named by the
-`AddCollectedEvent` result, which need not be the invocation's event (here uid 9 vs 2) -/
-example :
-    let r := C01.runFrom C01.exCfg C01.exPol initState 0 none none
-      (C01.feed 1 ++ C01.feed 2 ++
-        [.workerDone 1 0 [.addCollected 7 (C01.exEv 1), .result none], .drain,
-         .workerDone 1 1 [.addCollected 7 (C01.exEv 9)], .drain])
-    (r.running.map (fun w => (w.step, w.wid, w.ev.uid)),
-      (r.st.workers 1).inProg.map (fun ip => (ip.wid, ip.ev.uid))) = ([(1, 1, 9)], [(1, 2)]) := by
-  decide
-
-/-- **Clause 1, strongest true form** (invariant of the runner LTS): if no invocation's results
-name a collect buffer twice, then in every reachable runner state every live worker task is
-backed by an in-progress row of its (configured) step with its worker id, and the
-`(step, worker id)` slots of the live tasks are pairwise distinct. -/
-theorem C01_running_subset_in_progress_partial (cfg : Cfg) (hwf : cfg.WF) (pol : Policy) (st0 : State)
-    (h0 : IdsInv cfg st0) (now : Int) (start : Option Ev) (timeout : Option Nat) (acts : List Act)
-    (hg : ∀ a ∈ acts, a.CollectOnce) :
-    (∀ w ∈ (C01.runFrom cfg pol st0 now start timeout acts).running,
-      w.step ∈ cfg.names ∧
-      ∃ ip ∈ ((C01.runFrom cfg pol st0 now start timeout acts).st.workers w.step).inProg,
-        ip.wid = w.wid) ∧
-    ((C01.runFrom cfg pol st0 now start timeout acts).running.map Worker.slot).Nodup := by
-  have h := run_runInv cfg hwf pol False acts _ (guarded_of_collectOnce cfg pol acts _ hg)
-    (init_runInv cfg hwf False st0 h0 now start timeout)
-  refine ⟨fun w hw => ?_, h.nodup⟩
-  obtain ⟨h1, ip, hip, hwid, _⟩ := h.sub w hw
-  exact ⟨h1, ip, hip, hwid⟩
-
-/-- **Clause 1, event part**: if moreover every collect re-run carries the finishing worker's own
-event (`Runner.sameEvent`, checked along the run), the backing row has the task's event. -/
-theorem C01_running_same_event_partial (cfg : Cfg) (hwf : cfg.WF) (pol : Policy) (st0 : State)
-    (h0 : IdsInv cfg st0) (now : Int) (start : Option Ev) (timeout : Option Nat) (acts : List Act)
-    (hg : ∀ a ∈ acts, a.CollectOnce)
-    (he : Runner.sameEvent cfg pol (Runner.init cfg st0 now start timeout) acts = true) :
-    ∀ w ∈ (C01.runFrom cfg pol st0 now start timeout acts).running,
-      ∃ ip ∈ ((C01.runFrom cfg pol st0 now start timeout acts).st.workers w.step).inProg,
-        ip.wid = w.wid ∧ ip.ev = w.ev := by
-  have h := run_runInv cfg hwf pol True acts _ (guarded_of_sameEvent cfg pol acts _ hg he)
-    (init_runInv cfg hwf True st0 h0 now start timeout)
-  intro w hw
-  obtain ⟨_, ip, hip, hwid, hev⟩ := h.sub w hw
-  exact ⟨ip, hip, hwid, hev trivial⟩
-
-/-- **Clause 2, strongest true form**: under the same guard, a step never has more live worker
-tasks than `num_workers`, and every live task runs on a slot in `[0, num_workers)` —
-for retries, collect re-runs, waiter replays and resumed runs alike. -/
-theorem C01_running_bounded_partial (cfg : Cfg) (hwf : cfg.WF) (pol : Policy) (st0 : State)
-    (h0 : IdsInv cfg st0) (now : Int) (start : Option Ev) (timeout : Option Nat) (acts : List Act)
-    (hg : ∀ a ∈ acts, a.CollectOnce) :
-    (∀ c ∈ cfg.steps,
-      ((C01.runFrom cfg pol st0 now start timeout acts).running.filter
-        (fun w => w.step == c.name)).length ≤ c.numWorkers) ∧
-    ∀ w ∈ (C01.runFrom cfg pol st0 now start timeout acts).running, w.wid < cfg.nw w.step :=
-  (run_runInv cfg hwf pol False acts _ (guarded_of_collectOnce cfg pol acts _ hg)
-    (init_runInv cfg hwf False st0 h0 now start timeout)).bounded hwf
-
-/-! Non-vacuity: guarded schedules that do reach the limit, a re-run and a resumed run. -/
+/-! Non-vacuity: schedules that reach the limit, a re-run, and a resumed run. -/
 
 /-- two workers of the 2-worker step live at once, the third event stays queued -/
 example :
     let acts := C01.feed 1 ++ C01.feed 2 ++ C01.feed 3
     let r := C01.runFrom C01.exCfg C01.exPol initState 0 none none acts
-    (∀ a ∈ acts, a.CollectOnce) ∧ Runner.sameEvent C01.exCfg C01.exPol
-        (Runner.init C01.exCfg initState 0 none none) acts = true ∧
+    Runner.sameEvent C01.exCfg C01.exPol (Runner.init C01.exCfg initState 0 none none) acts = true ∧
       (r.running.map Worker.slot, (r.st.workers 1).inProg.map (·.wid), (r.st.workers 1).queue.length)
         = ([(1, 0), (1, 1)], [0, 1], 1) := by decide
 
-/-- a guarded schedule with a genuine collect re-run (slot 1 re-issued once) and a slot
-re-used by the queued event (slot 0) -/
+/-- a genuine collect re-run (slot 1 re-issued once, its later collect result skipped) and a
+slot re-used by the queued event (slot 0) -/
 example :
     let acts := C01.feed 1 ++ C01.feed 2 ++ C01.feed 3 ++
       [.workerDone 1 0 [.addCollected 7 (C01.exEv 1), .result none], .drain,
        .workerDone 1 1 [.addCollected 7 (C01.exEv 2), .addCollected 8 (C01.exEv 2)], .drain]
     let r := C01.runFrom C01.exCfg C01.exPol initState 0 none none acts
-    (∀ a ∈ acts, a.CollectOnce) ∧ Runner.sameEvent C01.exCfg C01.exPol
-        (Runner.init C01.exCfg initState 0 none none) acts = true ∧
-      (r.running.map (fun w => (w.step, w.wid, w.ev.uid)), (r.st.workers 1).inProg.map (·.wid))
-        = ([(1, 0, 3), (1, 1, 2)], [1, 0]) := by decide
+    Runner.sameEvent C01.exCfg C01.exPol (Runner.init C01.exCfg initState 0 none none) acts = true ∧
+      (r.running.map (fun w => (w.step, w.wid, w.ev.uid)), (r.st.workers 1).inProg.map (·.wid),
+        (r.st.workers 1).collected.has 8)
+        = ([(1, 0, 3), (1, 1, 2)], [1, 0], false) := by decide
 
 /-- a resumed run: the serialized state has two in-progress rows and a backlog; the rewind
 restarts exactly two workers -/
